@@ -45,7 +45,7 @@ def run(ctx):
         raise vlib.MachineryError("MC_MarkupHistory: histories with a failing line are not reachable")
 
     # ------------------------------------------------------------------ C->S
-    n = 1500 if thorough else 300
+    n = 8000 if thorough else 300
     st = mc.run_history(ctx, n=n)
     events = st.pop("events_list")
     ctx.log("histories: %d direct, %d dialogue runs (%d skipped), %d events, %d distinct lines, %d compared, %d differ" % (
